@@ -23,7 +23,7 @@ SPEC = {
              "compilations or the two calling conventions both executed a call; distinct = distinct recipe hashes."),
     "assumptions": ["vlib/avm.py semantics", "baseline = unoptimised scratch-convention compilation of the same program (C01/C02 judge the baseline itself)"],
     "min_evaluations": {"quick": 10000, "thorough": 150000},
-    "must_reach": ["agree", "corpus_agree", "corpus_approve", "optimizer_deleted_accesses", "setting_ss1_fp0", "setting_ss0_fp1", "setting_ss1_fp1", "cross_version_agree", "stack_traces_compared"],
+    "must_reach": ["agree", "reused_options_object", "corpus_agree", "corpus_approve", "optimizer_deleted_accesses", "setting_ss1_fp0", "setting_ss0_fp1", "setting_ss1_fp1", "cross_version_agree", "stack_traces_compared"],
     "shard_timeout": {"quick": 600, "thorough": 7200},
 }
 
@@ -166,7 +166,7 @@ def same(a, b, user_slots):
     return out
 
 
-def check_recipe(acc, probe, recipe, versions, ctxs, origin, only=None):
+def check_recipe(acc, probe, recipe, versions, ctxs, origin, only=None, reuse_pool=None):
     from .. import rcase
     from ..common import h
     key = h(recipe)
@@ -204,9 +204,16 @@ def check_recipe(acc, probe, recipe, versions, ctxs, origin, only=None):
             if only is not None and [ss, fp] != only:
                 continue
             probe.reset()
-            c = rcase.compile_recipe(recipe, version, "app", scratch_slots=ss, frame_pointers=fp)
+            # every other compilation reuses one OptimizeOptions object per setting for the whole shard (a user may keep one
+            # options object for all their programs): state left on it by an earlier compilation must not matter
+            shared = None
+            if reuse_pool is not None and (hash(key) + version) % 2 == 0:
+                import pyteal as pt
+                shared = reuse_pool.setdefault((ss, fp), pt.OptimizeOptions(scratch_slots=ss, frame_pointers=fp))
+                acc.counters["reused_options_object"] += 1
+            c = rcase.compile_recipe(recipe, version, "app", scratch_slots=ss, frame_pointers=fp, optimize_obj=shared)
             events = list(probe.events)
-            case0 = {"recipe": recipe, "versions": [version], "origin": origin, "setting": [ss, fp]}
+            case0 = {"recipe": recipe, "versions": [version], "origin": origin, "setting": [ss, fp], "reused_options": shared is not None}
             if c.prog is None:
                 # the baseline compiled: an option must not make the program uncompilable (except frame pointers below v8: not generated)
                 acc.evaluations += 1
@@ -367,6 +374,7 @@ def run_shard(shard):
                      only=c.get("setting") if c.get("setting") != [False, False] else None)
         return acc.result()
     rng = rng_for(shard["seed"], "c03", shard["shard"])
+    reuse_pool = {}
     for it in range(shard["n"]):
         vgen = rng.choice([4, 5, 6, 7, 8, 8, 9, 9, 10, 10])
         r = rng.random()
@@ -387,7 +395,7 @@ def run_shard(shard):
         v1 = max(vgen, lo)
         versions = sorted({v1, rng.choice(list(range(lo, 11)))}) if rng.random() < .5 else [v1]
         ctxs = [recipes.gen_ctx_desc(rng, "app") for _ in range(3)]
-        check_recipe(acc, probe, recipe, versions, ctxs, origin)
+        check_recipe(acc, probe, recipe, versions, ctxs, origin, reuse_pool=reuse_pool)
         acc.counters["recipes_" + origin] += 1
     # ---- the repository's example programs (sharded)
     import pyteal as pt
